@@ -52,7 +52,7 @@ const STAGE_BOUND: usize = 5;
 /// depth bound used by the cost model (mirrors the subject's private MAX_DEPTH; only influences skipping)
 const MODEL_MAX_DEPTH: usize = 10;
 const STEP_CAP_QUICK: u64 = 600;
-const STEP_CAP_THOROUGH: u64 = 1_000;
+const STEP_CAP_THOROUGH: u64 = 800;
 const HARD_TIMEOUT_S: u64 = 20;
 
 /// the three plain names first (the plain naming of a shape is x, X, Y in slot order; "x" is also a
@@ -92,7 +92,7 @@ const CORE: [&str; 24] = [
 /// sub-core used for the ordered pairs of the quick tier
 const QUICK_PAIR_CORE: [usize; 7] = [0, 5, 6, 7, 11, 12, 14];
 /// thorough tier: ordered pairs inside this sub-core get the fact sets of size <= 3, all other ordered pairs those of size <= 2 (+ curated)
-const THOROUGH_DENSE_PAIR_CORE: [usize; 8] = [0, 1, 5, 6, 7, 11, 12, 14];
+const THOROUGH_DENSE_PAIR_CORE: [usize; 6] = [0, 5, 6, 7, 12, 14];
 
 const FACT_UNIVERSE: [&str; 10] = ["a p b", "b p c", "c p d", "c p a", "b p a", "a p a", "a q b", "b q c", "d q a", "c q c"];
 /// curated larger fact sets (indices into FACT_UNIVERSE): chains, cycle, loop, mixed p/q
